@@ -155,10 +155,11 @@ func c08Setup(t *testing.T, tr *Trace, rng *Rng, variant int) *c08Env {
 			k.SetAssetRatesParams(ctx, r)
 		}
 	}
-	rate(a3, "0.8", "0.002", "0.06", "0.6", true, "0.04", "0.04", "0.06", "0.8", "0.85", "0.025", "0.025", "0.1", id("ucasset3"), false)
-	rate(a1, "0.75", "0.002", "0.07", "1.25", false, "0.0", "0.0", "0.0", "0.7", "0.75", "0.05", "0.05", "0.2", id("ucasset1"), false)
-	rate(a2, "0.5", "0.002", "0.08", "2.0", false, "0.0", "0.0", "0.0", "0.5", "0.55", "0.05", "0.05", "0.2", id("ucasset2"), false)
-	rate(a4, "0.65", "0.002", "0.08", "1.5", variant%2 == 1, "0.03", "0.05", "0.07", "0.6", "0.65", "0.05", "0.05", "0.2", id("ucasset4"), variant%5 == 4)
+	// (liquidation bonus different from the liquidation penalty: the fee of the locked vault and the penalty of the close read the penalty)
+	rate(a3, "0.8", "0.002", "0.06", "0.6", true, "0.04", "0.04", "0.06", "0.8", "0.85", "0.025", "0.015", "0.1", id("ucasset3"), false)
+	rate(a1, "0.75", "0.002", "0.07", "1.25", false, "0.0", "0.0", "0.0", "0.7", "0.75", "0.05", "0.03", "0.2", id("ucasset1"), false)
+	rate(a2, "0.5", "0.002", "0.08", "2.0", false, "0.0", "0.0", "0.0", "0.5", "0.55", "0.05", "0.03", "0.2", id("ucasset2"), false)
+	rate(a4, "0.65", "0.002", "0.08", "1.5", variant%2 == 1, "0.03", "0.05", "0.07", "0.6", "0.65", "0.05", "0.03", "0.2", id("ucasset4"), variant%5 == 4)
 
 	pair := func(in, out uint64, inter bool, pool uint64) {
 		if err := k.AddLendPairsRecords(ctx, lendtypes.Extended_Pair{AssetIn: in, AssetOut: out, IsInterPool: inter, AssetOutPoolID: pool, MinUsdValueLeft: 1000000}); err != nil {
@@ -1982,6 +1983,7 @@ func c08CorpusPoolDeletion(t *testing.T, tr *Trace, rng *Rng) {
 	e.opLend(u2, a1, e.denomOf[a1], n(3_000_000_000), 1, e.appOK) // lend 2 (pool 1)
 	e.opFundModule(u4, 2, a1, e.coin(a1, n(777_777_777)))
 	e.opFundModule(u4, 2, a4, e.coin(a4, n(1_000_001)))
+	e.opFundModule(u4, 2, e.base[2], e.coin(e.base[2], n(33_333_333)))
 	e.opSetDepreciatedFlag(2, false)
 	e.opBeginBlock() // lend 1 still open: nothing happens
 	e.opCloseLend(u1, 1)
